@@ -207,8 +207,10 @@ def main():
         run.cov["oracles"][oname] = {k: v for k, v in res.items() if k not in ("witness",)}
         # what the oracle executed counts as evaluations of this run (measured by the oracle itself)
         n_or = 0
-        for key in ("cases", "evaluations", "lines_checked", "emulated_cpu_models", "runs", "placements", "calls"):
+        for key in ("cases", "evaluations", "lines_checked", "emulated_cpu_models", "runs", "compared_lines", "scripts", "cases_against_lean_model"):
             if isinstance(res.get(key), int): n_or += res[key]
+            elif key == "runs" and isinstance(res.get(key), list): n_or += len(res[key])
+        if isinstance(res.get("seeds"), list): n_or += len(res["seeds"]) * int(res.get("rounds", 1))
         run.cov["evaluations"] += n_or
         if isinstance(res.get("distinct_nontrivial"), int): run.oracle_distinct = getattr(run, "oracle_distinct", 0) + res["distinct_nontrivial"]
         if res.get("samples") and len(run.cov["samples"]) < 6:
